@@ -6,7 +6,7 @@ from contextlib import contextmanager
 
 from . import model
 from . import options
-from .file_processor import FileProcessor
+from .file_processor import FileProcessor, NotTextError
 from .generators.base import GenerateError
 
 __version__ = '1.2.5'
@@ -160,5 +160,5 @@ def error_on_exception(emit):
         yield
     except model.ParseError as e:
         emit.error('\n'.join(('%s: error: %s' % err for err in e.errors)))
-    except model.ModelError as e:
+    except (model.ModelError, NotTextError) as e:
         emit.error(str(e))
